@@ -1,7 +1,8 @@
-"""C05 — relations are sets: a tuple is inserted exactly once, inputs are never lost."""
+"""C05 — relations are sets: a tuple is inserted exactly once, inputs are never lost.
+Fresh program values: below.  Program values in any state (histories of run / run_timeout / caller mutations): gen/c05_hist.py."""
 import json
 
-from .. import engine_tie, gen_dl, lib, prog
+from .. import c05_hist, engine_tie, gen_dl, lib, prog
 
 PROP = "C05"
 PROP_FILE = "Props/C05.v"
@@ -130,6 +131,8 @@ def race_runs(tier, seed):
 
 
 def tie(tier, seed, replay):
+    # program values in ANY state (resumed after run_timeout == false, re-run after the caller replaced / extended / truncated rows): gen/c05_hist.py
+    hist = c05_hist.tie_part(tier, seed)
     cases = gen_cases(tier, seed)
     results = []
     for i in range(0, len(cases), 96):
@@ -165,11 +168,12 @@ def tie(tier, seed, replay):
                         break
     race = race_runs(tier, seed)
     mism += race["mismatches"]
-    return dict(evaluations=sum(len(r["case"]["inputs"]) for r in results) + race["runs"], distinct_nontrivial=len(distinct) + race["runs"],
-                rule="(parallel race family: four programs in which 24-64 workers' worth of outer tuples derive the same 200-2500 tuples / lattice keys in the same iteration — fan-in, multi-head, dense reachability, one lattice key per item — under ascent_par! in pools of 2, 8, 16 with seeded perturbation; observables: rows = distinct tuples / keys, contents, inputs untouched) + random programs (3/4 positive, 1/4 stratified with aggregates) x 3 inputs, one of them with caller-supplied duplicate rows; observables: input rows are an unmodified prefix, appended rows are pairwise distinct and absent from the input, contents equal the specification, row counts equal the model's; non-trivial = the run derives something; distinct = distinct (program, input)",
-                samples=[dict(program=r["text"], input=r["case"]["inputs"][2], rows=prog.rows_snap(r["impl"][2]["snaps"][-1]) if r["impl"] and "snaps" in r["impl"][2] else None) for r in results[:2]],
-                distribution=dict(programs=len(results), inputs_with_duplicates=ndup, with_aggregates=sum(1 for r in results if r["case"]["agg"])),
+    mism = hist["mismatches"] + mism
+    return dict(evaluations=sum(len(r["case"]["inputs"]) for r in results) + race["runs"] + hist["evaluations"], distinct_nontrivial=len(distinct) + race["runs"] + hist["distinct"],
+                rule=hist["rule"] + "  FRESH VALUES: (parallel race family: four programs in which 24-64 workers' worth of outer tuples derive the same 200-2500 tuples / lattice keys in the same iteration — fan-in, multi-head, dense reachability, one lattice key per item — under ascent_par! in pools of 2, 8, 16 with seeded perturbation; observables: rows = distinct tuples / keys, contents, inputs untouched) + random programs (3/4 positive, 1/4 stratified with aggregates) x 3 inputs, one of them with caller-supplied duplicate rows; observables: input rows are an unmodified prefix, appended rows are pairwise distinct and absent from the input, contents equal the specification, row counts equal the model's; non-trivial = the run derives something; distinct = distinct (program, input)",
+                samples=[dict(program=r["text"], input=r["case"]["inputs"][2], rows=prog.rows_snap(r["impl"][2]["snaps"][-1]) if r["impl"] and "snaps" in r["impl"][2] else None) for r in results[:2]] + hist["samples"],
+                distribution=dict(programs=len(results), inputs_with_duplicates=ndup, with_aggregates=sum(1 for r in results if r["case"]["agg"]), **hist["distribution"]),
                 mismatches=mism,
-                trusted_base=["FRONT hook + plan translation; generated crates; rows printed in Vec order by the harness"],
-                assumptions=["random programs run through the serial macro here (their parallel runs are C02's tie); the race family runs through ascent_par!"],
-                extra=dict(cases_skipped_model_too_slow=nskipped, parallel_race_runs=race["runs"], parallel_race_distribution=dict(by_program=race["by_program"], pools=race["pools"], schedules_per_pool=race["schedules"])))
+                trusted_base=["FRONT hook + plan translation; generated crates; rows printed in Vec order by the harness"] + hist["trusted_base"],
+                assumptions=["fresh-value random programs run through the serial macro here (their parallel runs are C02's tie); the race family and every second history program run through ascent_par!"] + hist["assumptions"],
+                extra=dict(cases_skipped_model_too_slow=nskipped, **hist["extra"], parallel_race_runs=race["runs"], parallel_race_distribution=dict(by_program=race["by_program"], pools=race["pools"], schedules_per_pool=race["schedules"])))
